@@ -149,6 +149,15 @@ def extract():
     t.rulers = [c.rstrip("\n") for c in sta_consts if c.startswith("****************      ***  YYYY MM DD HH MM SS")]
     if len(t.rulers) < 3:
         raise TranslateError("bernese_sta: the column rulers of sections 001-003 were not found")
+    # ---- csv_: delimiter of the np.savetxt call
+    t.csv_delim = None
+    for n_ in tl.ast.walk(tl.functions(tl.module_ast(W + "csv_.py")).get("csv_", tl.ast.Module(body=[], type_ignores=[]))):
+        if isinstance(n_, tl.ast.Call) and getattr(n_.func, "attr", "") == "savetxt":
+            for kw_ in n_.keywords:
+                if kw_.arg == "delimiter" and isinstance(kw_.value, tl.ast.Constant):
+                    t.csv_delim = kw_.value.value
+    if not isinstance(t.csv_delim, str) or len(t.csv_delim) != 1:
+        raise TranslateError("csv_: np.savetxt(..., delimiter=<one character literal>) not found")
     # ---- parsers
     t.crd = tl.genfromtxt_params(P + "bernese_crd.py")
     t.clu = tl.genfromtxt_params(P + "bernese_clu.py")
@@ -211,6 +220,7 @@ def gen_text(t):
         f"({emit.s(m)}, mkblock {emit.s(b)} {emit.s(e)})" for m, (b, e) in t.tms_blocks.items()) + "].\n")
     for i, r in enumerate(t.rulers[:3]):
         o.append(f"Definition ruler_sta{i + 1} : string := {emit.s(r)}.")
+    o.append(f"Definition csv_delimiter : string := {emit.s(t.csv_delim)}.")
     o.append("")
     # parsers
     o.append(f"(* {P}bernese_crd.py genfromtxt delimiter {tuple(t.crd['delimiter'])} names {tuple(t.crd['names'])} *)")
@@ -404,18 +414,36 @@ def gen_site_source(rng, ctx, edge):
             "solution_epochs": [dict(soln="1", start_epoch=start, end_epoch=None, mean_epoch=None)],
             "solution_estimate": est,
         }
-        truth[st] = dict(domes=dom + mark, name=desc, ants=ants, rcvs=rcvs, eccs=eccs, xyz=xyz, vel=vel, start=start)
+        truth[st] = dict(domes=dom + mark, name=desc, ants=ants, rcvs=rcvs, eccs=eccs, xyz=xyz, vel=vel, start=start,
+                         description=desc, remark1=None, plate="", ident=None)
+        if rng.random() < 0.35:      # identifier as delivered by a site-log source (M3G / seStation): long names, country code, plate
+            nm = rng.choice(["Ny-Alesund Geodetic Observatory", "Tromsoe", "Zimmerwald Observatory L+T 88", "Hoenefoss Kartverket Hovedkontor"])
+            cc = rng.choice(["NO", "CHE", ""])
+            plate = rng.choice([None, "Eurasian", "north american", "Pacific"])
+            ident = dict(source=rng.choice(["m3g", "sestation"]), domes=(dom + mark) or None, name=nm, country="Norway", country_code=cc or None,
+                         tectonic_plate=plate)
+            truth[st].update(ident=ident, description=(f"{nm}, {cc}" if cc else nm), domes=dom + mark,
+                             remark1="From gnss-metadata.eu M3G API" if ident["source"] == "m3g" else "From NMA seStation API",
+                             plate={None: "", "Eurasian": "EURA", "north american": "NOAM", "Pacific": "PCFC"}[plate])
     return names, sd, truth
 
 
-def build_site_info(sd, names, source_path):
+def build_site_info(sd, names, source_path, truth=None):
+    from types import SimpleNamespace
     from midgard.site_info.site_info import SiteInfo
     from midgard.site_info.identifier import Identifier
     si = SiteInfo.get_history("snx", sd, list(names), source_path=source_path)
     idn = Identifier.get("snx", sd, list(names), source_path=source_path)
     for st in names:
         si[st]["identifier"] = idn[st]
+        if truth is not None and truth[st].get("ident"):
+            si[st]["identifier"] = SimpleNamespace(**truth[st]["ident"])
     return si
+
+
+def ident_digest(si):
+    return digest({st: (vars(v["identifier"]) if hasattr(v["identifier"], "__dict__") and not hasattr(v["identifier"], "_info") else None)
+                   for st, v in si.items()})
 
 
 def at(hist, date):
@@ -450,7 +478,7 @@ def rows_vel(names, truth, write_nan):
         t = truth[st]
         if not write_nan and math.isnan(t["vel"][0]):
             continue
-        out.append(("vel", [v_i(counter + 1), v_s(st.upper()), v_s(t["domes"]), v_f(t["vel"][0]), v_f(t["vel"][1]), v_f(t["vel"][2]), v_s("")],
+        out.append(("vel", [v_i(counter + 1), v_s(st.upper()), v_s(t["domes"]), v_f(t["vel"][0]), v_f(t["vel"][1]), v_f(t["vel"][2]), v_s(t["plate"])],
                     dict(station=st, vel=t["vel"])))
     return out
 
@@ -486,7 +514,7 @@ def rows_sta(names, truth, source_name, actual_tail):
         dfrom = t["ants"][0]["start_time"]
         dto = t["ants"][-1]["end_time"] or DMAX
         s1.append(("sta1", [v_s(st.upper()), v_s(t["domes"]), v_s(fmt_dt(dfrom)), v_s(fmt_dt(dto)), v_s(st.upper()),
-                            v_s(f"From {source_name} file")], dict(station=st)))
+                            v_s(t["remark1"] or f"From {source_name} file")], dict(station=st)))
     for st in sorted(names):
         t = truth[st]
         ev = sta_events(t, False)
@@ -497,8 +525,8 @@ def rows_sta(names, truth, source_name, actual_tail):
             s2.append(("sta2", [
                 v_s(st.upper()), v_s(t["domes"]), v_s(fmt_dt(a)), v_s(fmt_dt(b)), v_s(r["receiver_type"]), v_s(r["serial_number"]),
                 v_s(digits6(r["serial_number"])), v_s(an["antenna_type"]), v_s(an["radome_type"] or "NONE"), v_s(an["serial_number"]),
-                v_s("999999"), v_f(ec["vector_2"]), v_f(ec["vector_3"]), v_f(ec["vector_1"]), v_s(t["name"]), v_s(r["firmware"])],
-                dict(station=st, date_from=a, date_to=b, rcv=r, ant=an, ecc=ec, name=t["name"], domes=t["domes"])))
+                v_s("999999"), v_f(ec["vector_2"]), v_f(ec["vector_3"]), v_f(ec["vector_1"]), v_s(t["description"]), v_s(r["firmware"])],
+                dict(station=st, date_from=a, date_to=b, rcv=r, ant=an, ecc=ec, description=t["description"], domes=t["domes"])))
     for st in sorted(names):
         t = truth[st]
         ev = sta_events(t, True)[1:-1]
@@ -513,7 +541,8 @@ class Acc:
     """collects the Coq cases of one run"""
 
     def __init__(self):
-        self.cases = {"check_row_t": [], "check_line_t": [], "check_token_row_t": [], "check_token_line_t": [], "check_balanced": []}
+        self.cases = {"check_row_t": [], "check_line_t": [], "check_token_row_t": [], "check_token_line_t": [], "check_balanced": [],
+                      "check_list_row_t": []}
         self.meta = {k: [] for k in self.cases}
         self.files = []        # per written file: dict(kind, rep, parser_error, row_refs=[(fn, idx)])
         self.direct = []       # (what, replay) violations decided without Coq (structure, purity)
@@ -550,8 +579,8 @@ def run_site_writers(ctx, t, acc, n_sets):
                     epoch=rng.choice([None, datetime(2010, 1, 1), datetime(2015, 6, 30, 12, 0, 1)]), write_nan=rng.random() < 0.5)
         for wname in ("bernese_crd", "bernese_vel", "bernese_clu", "bernese_abb", "bernese_sta"):
             sdc = copy.deepcopy(sd)
-            si = build_site_info(sdc, names, src_path)
-            before = digest(sdc)
+            si = build_site_info(sdc, names, src_path, truth)
+            before = digest(sdc) + ident_digest(si)
             out = Path(ctx.work) / f"site_{k}_{wname}"
             rep0 = dict(writer=wname, stations=len(names), edge=edge, options={a: str(b) for a, b in opts.items()},
                         how=f"midgard.writers.write({wname!r}, file_path=..., site_info=SiteInfo.get_history('snx', <source>, stations) + identifier, ...)")
@@ -567,7 +596,7 @@ def run_site_writers(ctx, t, acc, n_sets):
             except Exception as e:
                 acc.direct.append((f"writer {wname} raised {type(e).__name__}: {e}", dict(rep0, source=_src_repr(sd))))
                 continue
-            if digest(sdc) != before:
+            if digest(sdc) + ident_digest(si) != before:
                 acc.direct.append((f"writer {wname} changed the site-information source data", dict(rep0, source=_src_repr(sd))))
             lines = read_lines(out)
             frec = dict(kind=wname, rep=rep0, parser_error=None, row_refs=[], source=sd)
@@ -801,30 +830,38 @@ def gen_enu(rng, edge):
 
 
 def gen_tms_dataset(rng, ctx, edge):
+    """a dataset of 1..3 stations observed at common (unsorted) epochs, rows shuffled: the station that is written is in
+    general NOT the first row at its epochs.  `flat`: fields outside an 'obs' collection (the writer then works on a copy)."""
     import numpy as np
     from midgard.data import dataset
     from midgard.data.position import Position
     n_ep = rng.choice([1, 1, 2, 3, 5, 8, 20, 60]) if ctx.quick() else rng.choice([1, 2, 3, 7, 30, 120, 400])
     st_len = rng.choice([4, 4, 4, 9, 1]) if edge != "station10" else 10
     stations = [gen_name(rng, st_len)]
-    if rng.random() < 0.35:
-        stations.append(gen_name(rng, 4) + "q")
+    for _ in range(rng.choice([0, 0, 1, 2])):
+        nm = gen_name(rng, 4) + rng.choice("qrs")
+        if nm not in stations:
+            stations.append(nm)
     day0 = datetime(1995, 1, 1) + timedelta(days=rng.randrange(0, 12000))
     days = rng.sample(range(0, max(n_ep * 3, 4)), n_ep)         # unsorted, unique
+    epochs = [day0 + timedelta(days=dd, seconds=rng.choice([0, 0, 43200, 86399])) for dd in days]
     rows = []
-    for st in stations:
-        for dd in (days if st == stations[0] else rng.sample(range(0, 50), rng.randrange(1, 4))):
-            rows.append((st, day0 + timedelta(days=dd, seconds=rng.choice([0, 0, 43200, 86399]))))
+    for j, st in enumerate(stations):
+        mine = list(epochs) if (j == 0 or rng.random() < 0.6) else rng.sample(epochs, rng.randrange(1, len(epochs) + 1))
+        if j > 0 and rng.random() < 0.3:
+            mine.append(day0 + timedelta(days=max(days) + 1 + j, seconds=17))
+        rows.extend((st, e) for e in mine)
     rng.shuffle(rows)
     n = len(rows)
+    flat = edge is None and rng.random() < 0.3
+    pre = "" if flat else "obs."
     d = dataset.Dataset(num_obs=n)
     d.add_time("time", val=[r[1] for r in rows], scale="utc", fmt="datetime")
     d.add_text("station", val=[r[0] for r in rows])
-    cols = {}          # data type -> list of floats (row order of the dataset)
-    if rng.random() < 0.85:
+    if flat or rng.random() < 0.85:
         xyz = np.array([[gen_coord(rng) for _ in range(3)] for _ in range(n)])
-        d.add_position("obs.site_pos", val=xyz, system="trs")
-    has_enu = rng.random() < 0.6
+        d.add_position(pre + "site_pos", val=xyz, system="trs")
+    has_enu = (not flat) and rng.random() < 0.6
     if has_enu:
         ref = np.array([gen_coord(rng) for _ in range(3)])
         if edge == "ref_big":
@@ -837,11 +874,12 @@ def gen_tms_dataset(rng, ctx, edge):
         if rng.random() < prob:
             if fields[0][1].startswith("obs.dsite_pos") and not has_enu:
                 continue
-            if fields[0][1].startswith("obs.site_pos") and "obs.site_pos" not in d.fields:
+            if fields[0][1].startswith("obs.site_pos") and (pre + "site_pos") not in d.fields:
                 continue
             for _, f in fields:
-                d.add_float(f, val=np.array([tms_value(rng, cls, edge) for _ in range(n)]), unit="meter" if cls in ("sigma", "small", "clock") else None)
-    return d, stations[0], rows
+                d.add_float(f.replace("obs.", pre, 1), val=np.array([tms_value(rng, cls, edge) for _ in range(n)]),
+                            unit="meter" if cls in ("sigma", "small", "clock") else None)
+    return d, stations, rows, flat
 
 
 def yyyydddsssss(dt):
@@ -857,182 +895,314 @@ def run_tms(ctx, t, acc, n_sets):
     fr_tmpl = ["tms_fr_description", "tms_fr_contact", "tms_fr_software", "tms_fr_input", "tms_fr_version"]
     for k in range(n_sets):
         edge = rng.choice([None] * 12 + ["enu_big", "sigma_big", "count_big", "station10", "ref_big", "agency4", "frame8"])
-        dset, station, rows = gen_tms_dataset(rng, ctx, edge)
-        o = dict(contact=rng.choice(["a@b.no", "", "x" * 60]), data_agency=rng.choice(["NMA", "IG", "X"]), file_agency="NMAX" if edge == "agency4" else rng.choice(["NMA", "K"]),
-                 input_=rng.choice(["in", "SINEX files"]), organization=rng.choice(["Norwegian Mapping Authority", "Org", ""]),
-                 software=rng.choice(["Where 2.1", "sw"]), version=rng.choice(["001", "12"]))
-        ctx.count(f"tms:edge:{edge}")
-        ctx.count(f"tms:epochs:{sum(1 for r in rows if r[0] == station)}")
-        before = dset_digest(dset)
-        obefore = digest(o)
-        out = Path(ctx.work) / f"tms_{k}"
-        rep0 = dict(writer="sinex_tms", edge=edge, station=station, options=o, fields=sorted(dset.fields), num_obs=dset.num_obs,
-                    how="midgard.writers.write('sinex_tms', dset=<dataset>, station=..., file_path=..., contact=..., ...)")
+        dset, stations, rows, flat = gen_tms_dataset(rng, ctx, edge)
+        ctx.count(f"tms:stations:{len(stations)}:{'flat' if flat else 'obs'}")
+        for si_, station in enumerate(stations):
+            o = dict(contact=rng.choice(["a@b.no", "", "x" * 60]), data_agency=rng.choice(["NMA", "IG", "X"]), file_agency="NMAX" if edge == "agency4" else rng.choice(["NMA", "K"]),
+                     input_=rng.choice(["in", "SINEX files"]), organization=rng.choice(["Norwegian Mapping Authority", "Org", ""]),
+                     software=rng.choice(["Where 2.1", "sw"]), version=rng.choice(["001", "12"]))
+            ctx.count(f"tms:edge:{edge}")
+            ctx.count(f"tms:epochs:{sum(1 for r in rows if r[0] == station)}")
+            before = dset_digest(dset)
+            obefore = digest(o)
+            out = Path(ctx.work) / f"tms_{k}_{si_}"
+            rep0 = dict(writer="sinex_tms", edge=edge, station=station, stations=stations, flat=flat, options=o,
+                            dataset_rows=[(r[0], r[1].isoformat()) for r in rows][:60], fields=sorted(dset.fields), num_obs=dset.num_obs,
+                        how="midgard.writers.write('sinex_tms', dset=<dataset>, station=..., file_path=..., contact=..., ...)")
+            try:
+                with warnings.catch_warnings():
+                    warnings.simplefilter("ignore")
+                    writers.write("sinex_tms", dset=dset, station=station, file_path=out, **o)
+            except Exception as e:
+                n_sta = sum(1 for r in rows if r[0] == station)
+                if n_sta == 1 and "obs.dsite_pos" in dset.fields and isinstance(e, ValueError) and "requires 3 columns" in str(e):
+                    acc.known.append(("c17_tms_single_epoch", "sinex_tms writer raises ValueError for a station with exactly one epoch when ENU columns are present "
+                                      "(TimeseriesBlocks._get_ref_pos builds a Position from one row)", dict(rep0, error=str(e))))
+                else:
+                    acc.direct.append((f"writer sinex_tms raised {type(e).__name__}: {e}", rep0))
+                continue
+            if dset_digest(dset) != before or digest(o) != obefore:
+                acc.direct.append(("writer sinex_tms changed the dataset / options it was given", rep0))
+            lines = read_lines(out)
+            frec = dict(kind="sinex_tms", rep=rep0, parser_error=None, row_refs=[], source={})
+            acc.files.append(frec)
+            acc.add("check_balanced", emit.lst(emit.s(x) for x in lines), dict(rep0, lines=lines[:40]), None)
+
+            # ---- what the writer was given, as the writer sees it
+            idx_sta = dset.filter(station=station)
+            names = [n for n, f in t.tms_field_types.items()
+                     if (((".".join(f.split(".")[0:2]) in dset.fields) if "obs." in f else (f.split(".")[0] in dset.fields)) if not flat
+                             else (f.replace("obs.", "", 1).split(".")[0] in dset.fields))]
+            with warnings.catch_warnings():
+                warnings.simplefilter("ignore")
+                colvals = {n: np.asarray(attrgetter(t.tms_field_types[n].replace("obs.", "", 1) if flat else t.tms_field_types[n])(dset))[idx_sta]
+                                   for n in names}
+                times = list(dset.time.utc.datetime[idx_sta])
+                tmin, tmax = dset.time.min.yyyydddsssss, dset.time.max.yyyydddsssss
+            order = sorted(range(len(times)), key=lambda i: times[i])
+
+            # ---- the parser
+            q = None
+            try:
+                with warnings.catch_warnings():
+                    warnings.simplefilter("ignore")
+                    q = parsers.parse_file("sinex_tms", out)
+                    if "timeseries_data" not in q.data:
+                        raise ValueError("no timeseries_data parsed")
+            except Exception as e:
+                frec["parser_error"] = f"{type(e).__name__}: {str(e)[:200]}"
+                q = None
+
+            # ---- expected sequence of lines
+            pos = [0]
+
+            def nxt():
+                if pos[0] >= len(lines):
+                    return None
+                pos[0] += 1
+                return lines[pos[0] - 1]
+
+            def expect_const(text, what):
+                ln = nxt()
+                if ln != text.rstrip("\n"):
+                    acc.direct.append((f"sinex_tms: line {pos[0]} ({what}) is not the constant line of the writer's source",
+                                       dict(rep0, expected=text.rstrip("\n"), written=ln)))
+                    return False
+                return True
+
+            def row(rid, vals, obs, cvs=None, spans=None, info=None):
+                ln = nxt()
+                rep = dict(rep0, row_type=rid, written_line=ln, input=info)
+                if ln is None:
+                    acc.direct.append((f"sinex_tms: file ends before the {rid} line", rep))
+                    return
+                if obs is not None and q is not None:
+                    rep["parsed"] = obs
+                    acc.add("check_row_t", emit.pair(f"L_{rid}", spans, cvs, emit.lst(vals), emit.s(ln), emit.lst(obs)), rep, frec)
+                else:
+                    acc.add("check_line_t", emit.pair(f"L_{rid}", emit.lst(vals), emit.s(ln)), rep, frec)
+                ctx.case((rid, ln[:15] + ln[29:] if rid == "tms_header" else ln), nontrivial=rid in ("tms_refcoord",))
+
+            # header line (the creation time is the clock: taken from the file)
+            hdr = lines[0] if lines else ""
+            a0 = 11 + max(3, len(o["file_agency"])) + 1
+            now = hdr[a0:a0 + 14]
+            m = q.meta if q is not None else {}
+
+            def iso2snx(x):
+                try:
+                    return yyyydddsssss(datetime.fromisoformat(x))
+                except Exception:
+                    return str(x)
+            hobs = None if q is None else [o_f(m.get("snx_version")), o_s(m.get("create_agency")), o_s(iso2snx(m.get("create_epoch"))),
+                                           o_s(m.get("data_agency")), o_s(iso2snx(m.get("start_epoch"))), o_s(iso2snx(m.get("end_epoch"))),
+                                           o_s(m.get("obs_code")), o_s(m.get("solution_contents"))]
+            row("tms_header", [v_s("1.00"), v_s(o["file_agency"]), v_s(now), v_s(o["data_agency"]), v_s(tmin), v_s(tmax), v_s("P"), v_s(station.upper())],
+                hobs, "Cv_tms_header", "P_tms_header", dict(station=station, file_agency=o["file_agency"], data_agency=o["data_agency"]))
+            # FILE/REFERENCE
+            frv = {"tms_fr_description": ("description", o["organization"]), "tms_fr_contact": ("contact", o["contact"]),
+                   "tms_fr_software": ("software", o["software"]), "tms_fr_input": ("input", o["input_"]), "tms_fr_version": ("version", o["version"])}
+            for kind, x in seq["file_reference"]:
+                if kind == "const":
+                    expect_const(x, "FILE/REFERENCE")
+                elif kind == "tmpl":
+                    rid = fr_tmpl[x]
+                    key, val = frv[rid]
+                    fobs = None if q is None else ["ONone", o_s(q.data.get("file_reference", {}).get(key, "<missing>"))]
+                    row(rid, [v_s(val)], fobs, "[CSkip; CU 60%nat]", "P_tms_file_reference", dict(key=key, value=val))
+            # REF_COORDINATE
+            if "EAST" in names:
+                with warnings.catch_warnings():
+                    warnings.simplefilter("ignore")
+                    rp = dset.obs.dsite_pos.ref_pos[idx_sta][0]
+                    rx, ry, rz = float(rp.trs.x), float(rp.trs.y), float(rp.trs.z)
+                rep_epoch = yyyydddsssss(datetime.fromisoformat(dset.meta["ref_epoch"]))
+                for kind, x in seq["timeseries_ref_coordinate"]:
+                    if kind == "const":
+                        expect_const(x, "REF_COORDINATE")
+                    else:
+                        rc = q.data.get("ref_coordinate", {}) if q is not None else {}
+                        robs = None if q is None else [o_s(rc.get("site_code")), o_s(rc.get("point_code")), o_s(rc.get("soln")), o_s(rc.get("obs_code")),
+                                                       o_s(iso2snx(rc.get("epoch"))), o_f(rc.get("ref_x")), o_f(rc.get("ref_y")), o_f(rc.get("ref_z")),
+                                                       o_s(rc.get("system"))]
+                        row("tms_refcoord", [v_s(station.upper()), v_s(rep_epoch), v_f(rx), v_f(ry), v_f(rz), v_s(dset.meta["ref_frame"])], robs,
+                            "Cv_tms_refcoord", "P_tms_refcoord", dict(ref_pos=[rx, ry, rz], ref_frame=dset.meta["ref_frame"], ref_epoch=dset.meta["ref_epoch"]))
+            # COLUMNS
+            tc = None
+            if q is not None and "timeseries_columns" in q.data:
+                tc = np.atleast_1d(q.data["timeseries_columns"])
+                if len(tc) != len(names):
+                    tc = None
+            for kind, x in seq["timeseries_columns"]:
+                if kind == "const":
+                    expect_const(x, "COLUMNS")
+                else:
+                    for i, nme in enumerate(names):
+                        w_, al_, kind_, unit, desc = t.tms_types[nme]
+                        cobs = None if tc is None else [o_f(tc["col"][i]), o_s(tc["name"][i]), o_s(tc["unit"][i]), o_s(tc["description"][i])]
+                        row("tms_columns", [v_i(i + 1), v_s(nme), v_s(unit), v_s(desc)], cobs, "Cv_tms_columns", "P_tms_columns", dict(column=nme))
+            # DATA
+            expect_const("+TIMESERIES/DATA", "DATA")
+            header = "*" + "".join(" _" + nme.ljust(t.tms_types[nme][0] - 2, "_") for nme in names)
+            expect_const(header, "DATA column header")
+            lay = f"(tms_row_layout tms_types {emit.lst(emit.s(x) for x in names)})"
+            td = q.data["timeseries_data"] if q is not None else None
+            if td is not None and any(len(np.atleast_1d(td.get(nme.lower(), []))) != len(order) for nme in names):
+                frec["parser_error"] = "parser returned a different number of rows / columns than written"
+                td = None
+            cvs = emit.lst("CStr" if t.tms_types[nme][2][0] == "s" else "CFloat" for nme in names)
+            for j, i in enumerate(order):
+                ln = nxt()
+                vals, info = [], {}
+                for nme in names:
+                    x = colvals[nme][i]
+                    if t.tms_types[nme][2][0] == "s":
+                        vals.append(v_s(x))
+                        info[nme] = str(x)
+                    else:
+                        vals.append(v_f(x))
+                        info[nme] = float(x)
+                rep = dict(rep0, row_type="tms_data", columns=names, written_line=ln, input=info)
+                if ln is None:
+                    acc.direct.append(("sinex_tms: fewer data rows written than epochs of the station", rep))
+                    break
+                if td is not None:
+                    obs = [(o_s(td[nme.lower()][j]) if t.tms_types[nme][2][0] == "s" else o_f(td[nme.lower()][j])) for nme in names]
+                    rep["parsed"] = obs
+                    acc.add("check_token_row_t", emit.pair(lay, cvs, emit.lst(vals), emit.s(ln), emit.lst(obs)), rep, frec)
+                else:
+                    acc.add("check_token_line_t", emit.pair(lay, emit.lst(vals), emit.s(ln)), rep, frec)
+                ctx.case(("tms_data", ln), nontrivial=True, sample=rep if j == 0 and k < 2 and si_ == 0 else None)
+            expect_const("-TIMESERIES/DATA", "DATA")
+            if pos[0] != len(lines):
+                acc.direct.append(("sinex_tms: lines after -TIMESERIES/DATA", dict(rep0, extra=lines[pos[0]:pos[0] + 3])))
+
+
+# =============================================================================================== csv_
+CSV_HEADER = {"time.decimalyear": "decimalyear", "time.gps.decimalyear": "decimalyear", "time.utc.decimalyear": "decimalyear",
+              "time.mjd": "mjd", "time.gps.mjd": "mjd", "time.utc.mjd": "mjd", "time.gps.gps_ws.week": "gpsweek",
+              "time.gps.gps_ws.seconds": "gpssec"}
+
+
+def csv_item(fmt):
+    """printf format of np.savetxt -> (Coq field, conv, value kind)"""
+    import re
+    m = re.fullmatch(r"(\d*)(?:\.(\d+))?([sdf])", fmt)
+    w, prec, ty = int(m.group(1) or 0), m.group(2), m.group(3)
+    if ty == "s":
+        return f"Fld (mkfld {emit.nat(w)} AR (KStr None) {emit.nat(w)})", "CStr", "s"
+    if ty == "d":
+        return f"Fld (mkfld {emit.nat(w)} AR KInt {emit.nat(w)})", "CFloat", "i"
+    return f"Fld (mkfld {emit.nat(w)} AR (KFix {emit.nat(int(prec) if prec is not None else 6)}) {emit.nat(w)})", "CFloat", "f"
+
+
+def run_csv(ctx, t, acc, n_sets):
+    """midgard/writers/csv_.py (module function; not registered as a plug-in) and the csv_ parser"""
+    import numpy as np
+    from midgard.data import dataset
+    from midgard import parsers
+    from midgard.writers.csv_ import csv_
+    from midgard.writers._writers import get_field
+    rng = ctx.rng
+    for k in range(n_sets):
+        n_sta = rng.choice([1, 1, 2, 3, 4])
+        stations = [rng.choice("abcdefgh") + gen_name(rng, 2).replace("0", "x") + rng.choice("klmn") for _ in range(n_sta)]
+        n_ep = rng.choice([1, 2, 3, 6, 12]) if ctx.quick() else rng.choice([1, 3, 10, 40, 150])
+        t0 = datetime(2023, 1, 1) + timedelta(days=rng.randrange(0, 500))
+        hours = rng.sample(range(0, max(4, n_ep * 2)), n_ep)                      # unsorted epochs
+        rows = [(s_, t0 + timedelta(hours=h, seconds=rng.choice([0, 30]) * h)) for h in hours for s_ in stations if rng.random() < 0.9 or s_ == stations[0]]
+        rng.shuffle(rows)
+        n = len(rows)
+        dset = dataset.Dataset(num_obs=n)
+        dset.add_time("time", val=[r[1] for r in rows], scale="gps", fmt="datetime")
+        dset.add_text("station", val=[r[0] for r in rows])
+        dset.add_float("reflection_height", val=np.array([gen_small(rng) for _ in range(n)]), unit="meter")
+        dset.add_float("water_level", val=np.array([gen_coord(rng) if rng.random() > 0.05 else float("nan") for _ in range(n)]), unit="meter")
+        fields = OrderedDict()
+        fields["date"] = rng.choice(["s", "s", ""])
+        cand = [("time.gps.mjd", rng.choice([".6f", ".3f"])), ("time.gps.gps_ws.week", "d"), ("time.gps.gps_ws.seconds", ".3f"),
+                ("station", "s"), ("reflection_height", rng.choice([".2f", ".4f", "9.3f"])), ("water_level", rng.choice([".2f", ".5f"]))]
+        rng.shuffle(cand)
+        for name, f_ in cand[:rng.randrange(2, len(cand) + 1)]:
+            fields[name] = f_
+        given = OrderedDict(fields)
+        before, fbefore = dset_digest(dset), digest(dict(fields))
+        out = Path(ctx.work) / f"csv_{k}.csv"
+        rep0 = dict(writer="csv_", stations=stations, epochs=n_ep, rows=n, fields=dict(given),
+                    dataset_rows=[(r[0], r[1].isoformat()) for r in rows][:40],
+                    how="midgard.writers.csv_.csv_(dset, file_path, fields)")
+        ctx.count(f"csv:stations:{n_sta}")
         try:
             with warnings.catch_warnings():
                 warnings.simplefilter("ignore")
-                writers.write("sinex_tms", dset=dset, station=station, file_path=out, **o)
+                csv_(dset, out, fields)
         except Exception as e:
-            n_sta = sum(1 for r in rows if r[0] == station)
-            if n_sta == 1 and "obs.dsite_pos" in dset.fields and isinstance(e, ValueError) and "requires 3 columns" in str(e):
-                acc.known.append(("c17_tms_single_epoch", "sinex_tms writer raises ValueError for a station with exactly one epoch when ENU columns are present "
-                                  "(TimeseriesBlocks._get_ref_pos builds a Position from one row)", dict(rep0, error=str(e))))
-            else:
-                acc.direct.append((f"writer sinex_tms raised {type(e).__name__}: {e}", rep0))
+            acc.direct.append((f"writer csv_ raised {type(e).__name__}: {e}", rep0))
             continue
-        if dset_digest(dset) != before or digest(o) != obefore:
-            acc.direct.append(("writer sinex_tms changed the dataset / options it was given", rep0))
-        lines = read_lines(out)
-        frec = dict(kind="sinex_tms", rep=rep0, parser_error=None, row_refs=[], source={})
-        acc.files.append(frec)
-        acc.add("check_balanced", emit.lst(emit.s(x) for x in lines), dict(rep0, lines=lines[:40]), None)
-
-        # ---- what the writer was given, as the writer sees it
-        idx_sta = dset.filter(station=station)
-        names = [n for n, f in t.tms_field_types.items()
-                 if ((".".join(f.split(".")[0:2]) in dset.fields) if "obs." in f else (f.split(".")[0] in dset.fields))]
+        changed = []
+        if digest(dict(fields)) != fbefore:
+            changed.append(f"fields dictionary {dict(given)} -> {dict(fields)}")
+        if dset_digest(dset) != before:
+            changed.append(f"dataset fields {sorted(dset.fields)}")
+        if changed:
+            acc.known.append(("c17_csv_alters_arguments", "csv_ writer rewrites the caller's `fields` dictionary (formats get a '%' prefix, so a second "
+                              "call with the same dictionary writes '%%s') and adds a 'date' field to the caller's dataset",
+                              dict(rep0, changed=changed)))
+        # ---- the rows the writer has to emit: ordered by date text, dataset order within one date
+        dates = [r[1].strftime("%Y-%m-%d %H:%M:%S") for r in rows]
+        order = sorted(range(n), key=lambda i: (dates[i], i))
         with warnings.catch_warnings():
             warnings.simplefilter("ignore")
-            colvals = {n: np.asarray(attrgetter(t.tms_field_types[n])(dset))[idx_sta] for n in names}
-            times = list(dset.time.utc.datetime[idx_sta])
-            tmin, tmax = dset.time.min.yyyydddsssss, dset.time.max.yyyydddsssss
-        order = sorted(range(len(times)), key=lambda i: times[i])
-
-        # ---- the parser
-        q = None
+            cols = {}
+            for name in given:
+                if name == "date":
+                    cols[name] = dates
+                else:
+                    w_ = name.split(".")
+                    cols[name] = list(get_field(dset, w_[0], tuple(w_[1:])))
+        items, cvs, kinds = [], [], []
+        for name, f_ in given.items():
+            it, cv, kd = csv_item(f_ if f_ else "s")
+            items.append(it)
+            cvs.append(cv)
+            kinds.append(kd)
+        lay = "[" + "; Lit csv_delimiter; ".join(items) + "]"
+        lines = read_lines(out)
+        frec = dict(kind="csv_", rep=rep0, parser_error=None, row_refs=[], source={})
+        acc.files.append(frec)
+        header = ",".join(CSV_HEADER.get(nm, nm) for nm in given)
+        if not lines or lines[0] != header:
+            acc.direct.append(("csv_: header line differs from the field names", dict(rep0, expected=header, written=lines[:1])))
+            continue
+        if len(lines) - 1 != n:
+            acc.direct.append((f"csv_: {n} observations given, {len(lines) - 1} data lines written", dict(rep0, written=lines[:6])))
+            continue
+        data = None
         try:
             with warnings.catch_warnings():
                 warnings.simplefilter("ignore")
-                q = parsers.parse_file("sinex_tms", out)
-                if "timeseries_data" not in q.data:
-                    raise ValueError("no timeseries_data parsed")
+                data = parsers.parse_file("csv_", out).data
+            if any(len(np.atleast_1d(data.get(CSV_HEADER.get(nm, nm), []))) != n for nm in given):
+                frec["parser_error"] = f"parser returned columns {list(data)} with lengths {[len(v) for v in data.values()]} for {n} written rows"
+                data = None
         except Exception as e:
             frec["parser_error"] = f"{type(e).__name__}: {str(e)[:200]}"
-            q = None
-
-        # ---- expected sequence of lines
-        pos = [0]
-
-        def nxt():
-            if pos[0] >= len(lines):
-                return None
-            pos[0] += 1
-            return lines[pos[0] - 1]
-
-        def expect_const(text, what):
-            ln = nxt()
-            if ln != text.rstrip("\n"):
-                acc.direct.append((f"sinex_tms: line {pos[0]} ({what}) is not the constant line of the writer's source",
-                                   dict(rep0, expected=text.rstrip("\n"), written=ln)))
-                return False
-            return True
-
-        def row(rid, vals, obs, cvs=None, spans=None, info=None):
-            ln = nxt()
-            rep = dict(rep0, row_type=rid, written_line=ln, input=info)
-            if ln is None:
-                acc.direct.append((f"sinex_tms: file ends before the {rid} line", rep))
-                return
-            if obs is not None and q is not None:
-                rep["parsed"] = obs
-                acc.add("check_row_t", emit.pair(f"L_{rid}", spans, cvs, emit.lst(vals), emit.s(ln), emit.lst(obs)), rep, frec)
-            else:
-                acc.add("check_line_t", emit.pair(f"L_{rid}", emit.lst(vals), emit.s(ln)), rep, frec)
-            ctx.case((rid, ln[:15] + ln[29:] if rid == "tms_header" else ln), nontrivial=rid in ("tms_refcoord",))
-
-        # header line (the creation time is the clock: taken from the file)
-        hdr = lines[0] if lines else ""
-        a0 = 11 + max(3, len(o["file_agency"])) + 1
-        now = hdr[a0:a0 + 14]
-        m = q.meta if q is not None else {}
-
-        def iso2snx(x):
-            try:
-                return yyyydddsssss(datetime.fromisoformat(x))
-            except Exception:
-                return str(x)
-        hobs = None if q is None else [o_f(m.get("snx_version")), o_s(m.get("create_agency")), o_s(iso2snx(m.get("create_epoch"))),
-                                       o_s(m.get("data_agency")), o_s(iso2snx(m.get("start_epoch"))), o_s(iso2snx(m.get("end_epoch"))),
-                                       o_s(m.get("obs_code")), o_s(m.get("solution_contents"))]
-        row("tms_header", [v_s("1.00"), v_s(o["file_agency"]), v_s(now), v_s(o["data_agency"]), v_s(tmin), v_s(tmax), v_s("P"), v_s(station.upper())],
-            hobs, "Cv_tms_header", "P_tms_header", dict(station=station, file_agency=o["file_agency"], data_agency=o["data_agency"]))
-        # FILE/REFERENCE
-        frv = {"tms_fr_description": ("description", o["organization"]), "tms_fr_contact": ("contact", o["contact"]),
-               "tms_fr_software": ("software", o["software"]), "tms_fr_input": ("input", o["input_"]), "tms_fr_version": ("version", o["version"])}
-        for kind, x in seq["file_reference"]:
-            if kind == "const":
-                expect_const(x, "FILE/REFERENCE")
-            elif kind == "tmpl":
-                rid = fr_tmpl[x]
-                key, val = frv[rid]
-                fobs = None if q is None else ["ONone", o_s(q.data.get("file_reference", {}).get(key, "<missing>"))]
-                row(rid, [v_s(val)], fobs, "[CSkip; CU 60%nat]", "P_tms_file_reference", dict(key=key, value=val))
-        # REF_COORDINATE
-        if "EAST" in names:
-            with warnings.catch_warnings():
-                warnings.simplefilter("ignore")
-                rp = dset.obs.dsite_pos.ref_pos[idx_sta][0]
-                rx, ry, rz = float(rp.trs.x), float(rp.trs.y), float(rp.trs.z)
-            rep_epoch = yyyydddsssss(datetime.fromisoformat(dset.meta["ref_epoch"]))
-            for kind, x in seq["timeseries_ref_coordinate"]:
-                if kind == "const":
-                    expect_const(x, "REF_COORDINATE")
-                else:
-                    rc = q.data.get("ref_coordinate", {}) if q is not None else {}
-                    robs = None if q is None else [o_s(rc.get("site_code")), o_s(rc.get("point_code")), o_s(rc.get("soln")), o_s(rc.get("obs_code")),
-                                                   o_s(iso2snx(rc.get("epoch"))), o_f(rc.get("ref_x")), o_f(rc.get("ref_y")), o_f(rc.get("ref_z")),
-                                                   o_s(rc.get("system"))]
-                    row("tms_refcoord", [v_s(station.upper()), v_s(rep_epoch), v_f(rx), v_f(ry), v_f(rz), v_s(dset.meta["ref_frame"])], robs,
-                        "Cv_tms_refcoord", "P_tms_refcoord", dict(ref_pos=[rx, ry, rz], ref_frame=dset.meta["ref_frame"], ref_epoch=dset.meta["ref_epoch"]))
-        # COLUMNS
-        tc = None
-        if q is not None and "timeseries_columns" in q.data:
-            tc = np.atleast_1d(q.data["timeseries_columns"])
-            if len(tc) != len(names):
-                tc = None
-        for kind, x in seq["timeseries_columns"]:
-            if kind == "const":
-                expect_const(x, "COLUMNS")
-            else:
-                for i, nme in enumerate(names):
-                    w_, al_, kind_, unit, desc = t.tms_types[nme]
-                    cobs = None if tc is None else [o_f(tc["col"][i]), o_s(tc["name"][i]), o_s(tc["unit"][i]), o_s(tc["description"][i])]
-                    row("tms_columns", [v_i(i + 1), v_s(nme), v_s(unit), v_s(desc)], cobs, "Cv_tms_columns", "P_tms_columns", dict(column=nme))
-        # DATA
-        expect_const("+TIMESERIES/DATA", "DATA")
-        header = "*" + "".join(" _" + nme.ljust(t.tms_types[nme][0] - 2, "_") for nme in names)
-        expect_const(header, "DATA column header")
-        lay = f"(tms_row_layout tms_types {emit.lst(emit.s(x) for x in names)})"
-        td = q.data["timeseries_data"] if q is not None else None
-        if td is not None and any(len(np.atleast_1d(td.get(nme.lower(), []))) != len(order) for nme in names):
-            frec["parser_error"] = "parser returned a different number of rows / columns than written"
-            td = None
-        cvs = emit.lst("CStr" if t.tms_types[nme][2][0] == "s" else "CFloat" for nme in names)
         for j, i in enumerate(order):
-            ln = nxt()
             vals, info = [], {}
-            for nme in names:
-                x = colvals[nme][i]
-                if t.tms_types[nme][2][0] == "s":
-                    vals.append(v_s(x))
-                    info[nme] = str(x)
-                else:
-                    vals.append(v_f(x))
-                    info[nme] = float(x)
-            rep = dict(rep0, row_type="tms_data", columns=names, written_line=ln, input=info)
-            if ln is None:
-                acc.direct.append(("sinex_tms: fewer data rows written than epochs of the station", rep))
-                break
-            if td is not None:
-                obs = [(o_s(td[nme.lower()][j]) if t.tms_types[nme][2][0] == "s" else o_f(td[nme.lower()][j])) for nme in names]
-                rep["parsed"] = obs
-                acc.add("check_token_row_t", emit.pair(lay, cvs, emit.lst(vals), emit.s(ln), emit.lst(obs)), rep, frec)
+            for (name, _), kd in zip(given.items(), kinds):
+                x = cols[name][i]
+                vals.append(v_s(x) if kd == "s" else v_i(int(x)) if kd == "i" else v_f(x))
+                info[name] = str(x) if kd == "s" else float(x)
+            obs = ["ONone"] * len(kinds) if data is None else [
+                (o_s(data[CSV_HEADER.get(nm, nm)][j]) if kd == "s" else o_f(data[CSV_HEADER.get(nm, nm)][j])) for nm, kd in zip(given, kinds)]
+            rep = dict(rep0, row_type="csv_row", written_line=lines[1 + j], input=info, dataset_row=i)
+            if data is None:
+                cvs_row = emit.lst(["CSkip"] * len(kinds))
             else:
-                acc.add("check_token_line_t", emit.pair(lay, emit.lst(vals), emit.s(ln)), rep, frec)
-            ctx.case(("tms_data", ln), nontrivial=True, sample=rep if j == 0 and k < 2 else None)
-        expect_const("-TIMESERIES/DATA", "DATA")
-        if pos[0] != len(lines):
-            acc.direct.append(("sinex_tms: lines after -TIMESERIES/DATA", dict(rep0, extra=lines[pos[0]:pos[0] + 3])))
+                rep["parsed"] = obs
+                cvs_row = emit.lst(cvs)
+            acc.add("check_list_row_t", emit.pair(lay, cvs_row, emit.lst(vals), emit.s(lines[1 + j]), emit.lst(obs)), rep, frec)
+            ctx.case(("csv", lines[1 + j]), nontrivial=n_sta > 1, sample=rep if j == 0 and k == 0 else None)
 
 
 # =============================================================================================== the run
@@ -1061,6 +1231,8 @@ def run(ctx):
     ctx.log(f"site-information writers done: {sum(len(v) for v in acc.cases.values())} lines")
     run_tms(ctx, t, acc, n_tms)
     ctx.log(f"sinex_tms done: {sum(len(v) for v in acc.cases.values())} lines, {len(acc.files)} files")
+    run_csv(ctx, t, acc, 12 if ctx.quick() else 80)
+    ctx.log(f"csv_ done: {sum(len(v) for v in acc.cases.values())} lines, {len(acc.files)} files")
 
     verdicts = {}
     for fn, cases in acc.cases.items():
